@@ -10,7 +10,10 @@
               every TLC vector (oracle validation); (2) packet.Checksum, IP4.CalculateChecksum, ICMP.SetChecksum,
               EncodeIP4+SetPayload/AppendPayload and the echo send functions are compared with TLC's bytes;
               (3) the validated transcription judges every string of length 3, word perturbations and random strings
-              of every length 0..1522; (4) frames emitted by the NDP send functions must verify to zero.
+              of every length 0..1522; (4) frames emitted by the NDP send functions must verify to zero, echo requests sent
+              directly after another transmission (pair6 vectors: pooled transmit buffers) must carry TLC's bytes, headers
+              completed concurrently on separate buffers and echo requests sent concurrently must each verify.
+              A failing send is replayed together with the history of earlier sends of the process.
 """
 import os
 
@@ -34,7 +37,8 @@ def run(ctx):
         raise vlib.InfraError("driver consumed %d of %d vectors" % (s["vectors"], n))
     seen = cl.report_failures(ctx, binary, s)
     evaluations = (s["lib_checks"] + s["sweep_len3"] + s["perturbations"] + s["random_strings"] + s["split_checks"] +
-                   s["frames_verified"] + s["hdr_field_sweep"] + s["echo_payload_sweep"])
+                   s["frames_verified"] + s["hdr_field_sweep"] + s["echo_payload_sweep"] + s["concurrent_headers"] +
+                   s["concurrent_frames"])
     cov = ctx.coverage
     cov.update({
         "tlc": {cfg: r.summary()},
@@ -53,6 +57,8 @@ def run(ctx):
         "split_independence_checks": s["split_checks"],
         "ipv4_header_field_sweep": s["hdr_field_sweep"],
         "icmp_echo_payload_sweep": s["echo_payload_sweep"],
+        "headers_completed_concurrently": s["concurrent_headers"],
+        "frames_sent_concurrently": s["concurrent_frames"],
         "emitted_frames_verified": s["frames_verified"],
         "emitted_frames_by_function": s["frames_by_fn"],
         "send_refused": s.get("send_refused", {}),
